@@ -256,9 +256,42 @@ def c01_ops(kind, pv, S, r):
     return ops
 
 
+def _is_prime(n):
+    if n < 2:
+        return False
+    i = 2
+    while i * i <= n:
+        if n % i == 0:
+            return False
+        i += 1
+    return True
+
+
+def full_table_cases(tier, rng):
+    """Hash tables above 2^16 slots that are full or have one or two free cells: the strings inserted last
+    need tens of thousands of probes (the probe arithmetic leaves 32 bits), a search for them or for an
+    absent string runs through the whole table."""
+    S = scale_dicts(tier, rng)["hash150k"]
+    r = rng.fork("fulltab")
+    cases = []
+    for target in ((149000, 131100, 98000, 70000) if tier == "thorough" else (149000, 131100, 70000)):
+        pr = target
+        while not _is_prime(pr):
+            pr -= 1
+        for free in (0, 1, 2):
+            n = pr - free
+            T = S[:n]
+            for kind in ("HASHHF", "HASHRPF"):
+                ops = [["rt", hx(x)] for x in T[-160:] + r.sample(T, 40)] + [["rt", hx(x + b"~")] for x in r.sample(T, 5)]
+                for ph, pre in (("b", []), ("l", [["reload", "own", 1]])):
+                    cases.append(("ft_%s_%d_%d_%s" % (kind, pr, free, ph), "dict", kind, {"ov": 0, "scale": 1}, T, pre + ops))
+    return cases
+
+
 def c01_streams(tier, rng):
     return [StreamSet("roundtrip", "asan", kind_cases(tier, rng, ALL_KINDS, c01_ops)),
-            StreamSet("scale", "asan", scale_cases(tier, rng, scale_ops_roundtrip), timeout=600)]
+            StreamSet("scale", "asan", scale_cases(tier, rng, scale_ops_roundtrip), timeout=600),
+            StreamSet("full-tables", "asan", full_table_cases(tier, rng), timeout=600)]
 
 
 PROPS["C01"] = PropSpec(
@@ -357,7 +390,8 @@ def c06_streams(tier, rng):
             lc.append(("pl_%s_%s" % (kind, how[1]), "dict", kind, {"b": 8, "ov": 25}, S, [how] + qs + [["exts"], how] + qs))
     # images are self-delimiting: the `reload` op appends a trailer and checks tellg
     return [StreamSet("persist", "asan", cases), StreamSet("longcodes", "asan", lc, timeout=120),
-            StreamSet("scale", "asan", scale_cases(tier, rng, scale_ops_persist, phases=("loaded", "generic")), timeout=600)]
+            StreamSet("scale", "asan", scale_cases(tier, rng, scale_ops_persist, phases=("loaded", "generic")), timeout=600),
+            StreamSet("reload-every-size", "asan", sweep_cases(tier, rng), timeout=900)]
 
 
 def c08_ops(kind, pv, S, r):
@@ -476,7 +510,12 @@ PROPS["C03"] = PropSpec(c03_streams,
 PROPS["C04"] = PropSpec(simple_dict_prop(c04_ops, PREFIX_KINDS, "prefix", phases=("built", "loaded", "loaded2"), scale="scale_ops_prefix"),
                         _RULE % "patterns: prefixes of members, one-byte extensions, members, longer than every member, below/above all members",
                         _PART, "prefix search equals the contiguous specification range", _ASSUME)
-PROPS["C05"] = PropSpec(simple_dict_prop(c05_ops, SUBSTR_KINDS, "substr", phases=("built", "loaded", "loaded2")),
+def c05_streams(tier, rng):
+    base = simple_dict_prop(c05_ops, SUBSTR_KINDS, "substr", phases=("built", "loaded", "loaded2"))(tier, rng)
+    return base + [StreamSet("scale", "asan", scale_cases(tier, rng, scale_ops_substr, kinds=SUBSTR_KINDS), timeout=900)]
+
+
+PROPS["C05"] = PropSpec(c05_streams,
                         _RULE % "patterns: substrings of length 1..3 of members, whole members, straddling two members, absent bytes",
                         ["FM-index backward search and XBW navigation are not modelled (D3): correspondence with the specification only"],
                         "glue (duplicate-skipping iterator, position→ID map) is modelled; the index algorithms are compared with Spec.substrIds", _ASSUME)
@@ -905,6 +944,8 @@ def scale_dicts(tier, rng):
         "fc100k": rnd(100000, 1, 40, a40),             # Re-Pair over the front-coded text: > 65280 rules
         "trie12k": rnd(12000 if not thorough else 20000, 3, 14, a26),   # > 16384 trie nodes
         "mid6k": rnd(6000, 4, 60, a26 + [0x20, 0x2d]),
+        "ab3k": rnd(3000, 6, 14, [0x61, 0x62]),       # two letters: the trie block under one symbol spans whole RRR super-blocks
+        "abc5k": rnd(5000, 5, 12, [0x61, 0x62, 0x63]),
     }
     _SCALE_CACHE[key] = d
     return d
@@ -918,6 +959,7 @@ SCALE_PLAN = [
     ("HTFC", "mid6k", {"b": 16}), ("HHTFC", "mid6k", {"b": 33}),
     ("XBW", "trie12k", {}), ("FMINDEX", "trie12k", {"rrr": 1, "bs": 7, "bwt": 5}), ("FMINDEX", "mid6k", {"rrr": 0, "bs": 20, "bwt": 16}),
     ("RPDAC", "trie12k", {}),
+    ("XBW", "ab3k", {}), ("XBW", "abc5k", {}), ("FMINDEX", "ab3k", {"rrr": 1, "bs": 128, "bwt": 7}), ("RPDAC", "ab3k", {}), ("HTFC", "abc5k", {"b": 8}),
 ]
 
 
@@ -994,6 +1036,22 @@ def scale_ops_persist(kind, pv, S, r):
     return ops
 
 
+def scale_ops_substr(kind, pv, S, r):
+    if kind not in SUBSTR_KINDS or (kind == "FMINDEX" and int(pv.get("bwt", 4)) == 0):
+        return []
+    pats = []
+    for x in r.sample(S, 24):
+        a = r.range(0, max(0, len(x) - 3))
+        pats.append(x[a:a + r.range(3, 8)])
+    pats += [S[0], S[-1], S[len(S) // 2][:5], b"zzzz", S[3][1:]]
+    ops = []
+    for p in pats:
+        ops.append(["sub", hx(p)])
+    for p in pats[:8]:
+        ops.append(["xsub", hx(p)])
+    return ops
+
+
 def scale_ops_meta(kind, pv, S, r):
     return [["meta"]]
 
@@ -1001,6 +1059,37 @@ def scale_ops_meta(kind, pv, S, r):
 def scale_ops_resave(kind, pv, S, r):
     q = scale_ops_roundtrip(kind, pv, S, r)[:20]
     return [["save2"]] + q + [["resave", 1], ["save2"]] + q
+
+
+def sweep_cases(tier, rng):
+    """One case per kind: the harness builds a dictionary for every size in a range (first n strings of a
+    pool), reloads it and probes both objects; the sizes at which a rule count, a node count or a bit width
+    reaches a power of two lie somewhere inside."""
+    r = rng.fork("sweep-pool")
+    thorough = tier == "thorough"
+    pool = sorted(set(bytes(r.choice(gen.ALPHABETS[26]) for _ in range(r.range(2, 9))) for _ in range(5200 if thorough else 1500)))
+    pool4 = sorted(set(bytes(r.choice(gen.ALPHABETS[4]) for _ in range(r.range(3, 14))) for _ in range(2500 if thorough else 1200)))
+    hi = len(pool)
+    plan = [("RPFC", {"b": 16}, pool, 150, 4600 if thorough else 760, 1), ("RPHTFC", {"b": 16}, pool, 150, 4600 if thorough else 760, 1),
+            ("RPFC", {"b": 4}, pool4, 100, 1100, 1), ("RPHTFC", {"b": 4}, pool4, 100, 1100, 1),
+            ("RPDAC", {}, pool, 60, 900 if thorough else 500, 1), ("HASHRPDAC", {"ov": 25}, pool, 60, 700 if thorough else 400, 2),
+            ("HASHRPF", {"ov": 10}, pool, 60, 700 if thorough else 400, 2),
+            ("PFC", {"b": 8}, pool, 2, 300, 1), ("HTFC", {"b": 8}, pool, 2, 400, 1), ("HHTFC", {"b": 5}, pool, 2, 400, 1),
+            ("FMINDEX", {"rrr": 0, "bs": 4, "bwt": 3}, pool, 2, 300, 1), ("FMINDEX", {"rrr": 1, "bs": 5, "bwt": 4}, pool, 2, 300, 1),
+            ("XBW", {}, pool, 2, 260, 2), ("HASHHF", {"ov": 0}, pool, 2, 330, 1), ("HASHUFFDAC", {"ov": 10}, pool, 2, 330, 1),
+            ("BLOCKS", {"ov": 25, "cut": 300, "thr": 2}, pool, 2, 200, 3)]
+    cases = []
+    for kind, pv, P, lo, top, step in plan:
+        top = min(top, len(P))
+        # split the range so that the cases run in parallel and a crash is localised
+        span = max(40, (top - lo) // 6)
+        a = lo
+        while a <= top:
+            b = min(top, a + span - 1)
+            cases.append(("sw_%s_%s_%d" % (kind, "_".join("%s%s" % kv for kv in sorted(pv.items())), a), "sweep", kind, pv, P[:b],
+                          [["sweep", a, b, step]]))
+            a = b + 1
+    return cases
 
 
 def chunks_phase2(case, impl_lines):
@@ -1016,16 +1105,16 @@ def chunks_phase2(case, impl_lines):
         if len(t) >= 8 and t[1] == "CT":
             d = dict(x.split("=", 1) for x in t[2:])
             ops.append(["chchk", str(src[2]), src[3] if len(src) > 3 else "-", d.get("k", "0"), d.get("cw", "-"), d.get("pos", "-"),
-                        d.get("ent", "-"), d.get("trees", "-"), d.get("runs", "-")])
+                        d.get("ent", "-"), d.get("trees", "-"), d.get("runs", "-"), d.get("encs", "-")])
             k += 1
         elif len(t) >= 2 and t[1] == "RQ":
             ops.append(["rdskip"])
             k += 1
         elif not l.startswith("FAULT"):
-            ops.append(["chchk", "0", "-", "0", "-", "-", "-", "-", "-"])
+            ops.append(["chchk", "0", "-", "0", "-", "-", "-", "-", "-", "-"])
             k += 1
     while len(ops) < len(case[5]):
-        ops.append(["chchk", "0", "-", "0", "-", "-", "-", "-", "-"])
+        ops.append(["chchk", "0", "-", "0", "-", "-", "-", "-", "-", "-"])
     return ops
 
 
